@@ -21,8 +21,9 @@ Definition run (s : sx) : sx :=
   | 1 => (* _extract_subsequences: seq (split times) use_default (preserve numbers) *)
       let pres := if xB (a 3%nat) then DEFAULT_PRESERVE else xZs (a 4%nat) in
       oRes oSeqs (extract_subsequences pres (xSeq (a 1%nat)) (xZs (a 2%nat)))
-  | 2 => (* extract_subsequence: seq start end *)
-      oRes oSeq (extract_subsequence DEFAULT_PRESERVE (xSeq (a 1%nat)) (xZ (a 2%nat)) (xZ (a 3%nat)))
+  | 2 => (* extract_subsequence: seq start end use_default (preserve numbers) *)
+      let pres := if xB (a 4%nat) then DEFAULT_PRESERVE else xZs (a 5%nat) in
+      oRes oSeq (extract_subsequence pres (xSeq (a 1%nat)) (xZ (a 2%nat)) (xZ (a 3%nat)))
   | 3 => (* trim_note_sequence: seq start end *)
       oRes oSeq (trim (xSeq (a 1%nat)) (xZ (a 2%nat)) (xZ (a 3%nat)))
   | 4 => (* split_note_sequence, scalar hop: seq hop skip *)
